@@ -1,9 +1,9 @@
 """Sidecar contracts for /repo (no repository file is edited).  Importing this package fills
 pyvc.api.CONTRACTS / CLASSES / LEMMAS."""
-from . import bitarray, hashes, bloom, ondisk, countingbloom, cms, expanding, cuckoo, ccuckoo  # noqa: F401
+from . import bitarray, hashes, bloom, ondisk, countingbloom, cms, expanding, cuckoo, ccuckoo, serial  # noqa: F401
 
 # accessors that may be inlined (checked against their body, listed in evidence)
-INLINE = {"probables.utilities.is_valid_file", "probables.utilities.is_hex_string"}
+INLINE = {"probables.utilities.is_valid_file", "probables.utilities.is_hex_string", "probables.utilities.resolve_path"}
 
 # per-property level / assumptions / explanation used in evidence
 LEVELS = {}
